@@ -34,3 +34,6 @@ func S5(a int) interface{} { return nil }
 type SeqErr struct{ pos int }
 
 func (e *SeqErr) Error() string { return "seq" }
+
+//go:noinline
+func SV(a int, xs ...int) int { return -6000 - a - len(xs) + pad*3 }
